@@ -678,6 +678,41 @@ class C09:
                     if rng.chance(1, 3):
                         g.add("suffix-cut", gen.resp_op(tree, ov, None, gen.cut(m + sfx, [len(m), rng.randint(1, len(m))])), {"sfx": sfx.hex()})
             groups.append(g)
+        # limits exactly at the message: bytes after the message must not be charged to it
+        for k in range(n // 3):
+            m = build_valid_request(rng)
+            g = Group("ql%d" % k, "req-suffix", {"msg": m.hex(), "kind": "req"})
+            mx = len(m) + rng.pick([0, 0, 1, 5])
+            lcfg = (rng.pick([None, 1000, m.index(b"\r\n")]), rng.pick([None, 1000]), mx)
+            g.add("alone", gen.req_op(tree, ov, lcfg, [m]))
+            for _ in range(3):
+                sfx = rng.pick(SUFFIXES) if rng.chance(1, 2) else build_valid_request(rng)
+                g.add("suffix", gen.req_op(tree, ov, lcfg, [m + sfx]), {"sfx": sfx.hex()})
+                g.add("suffix-cut", gen.req_op(tree, ov, lcfg, gen.cut(m + sfx, [rng.randint(1, len(m))])), {"sfx": sfx.hex()})
+            groups.append(g)
+        # arbitrary accepted streams (valid-biased generator and its mutations): whatever was consumed as one
+        # message stays the same message when more bytes follow
+        for k in range(n // 2):
+            if k % 2 == 0:
+                s, info = gen.gen_request(rng, good_p=0.9)
+                if rng.chance(1, 6):
+                    s = gen.mutate(rng, s)
+                scfg = gen.gen_req_cfg(rng, s, info) if rng.chance(1, 3) else cfg
+                g = Group("qs%d" % k, "req-stream-suffix", {"stream": s.hex(), "kind": "req"})
+                g.add("alone", gen.req_op(tree, ov, scfg, [s]))
+                for _ in range(3):
+                    sfx = rng.pick(SUFFIXES) if rng.chance(2, 3) else gen.rand_bytes(rng, rng.randint(1, 12))
+                    g.add("suffix", gen.req_op(tree, ov, scfg, [s + sfx]), {"sfx": sfx.hex()})
+            else:
+                s, info = gen.gen_response(rng, good_p=0.9, chunked_p=0.5)
+                if rng.chance(1, 6):
+                    s = gen.mutate(rng, s)
+                g = Group("ps%d" % k, "resp-stream-suffix", {"stream": s.hex(), "kind": "resp"})
+                g.add("alone", gen.resp_op(tree, ov, None, [s]))
+                for _ in range(3):
+                    sfx = rng.pick(SUFFIXES) if rng.chance(2, 3) else gen.rand_bytes(rng, rng.randint(1, 12))
+                    g.add("suffix", gen.resp_op(tree, ov, None, [s + sfx]), {"sfx": sfx.hex()})
+            groups.append(g)
         # pipelines: k messages back to back on one buffer; each offset parsed as the protocol prescribes
         for k in range(n // 5):
             is_req = rng.chance(1, 2)
@@ -704,6 +739,20 @@ class C09:
 
         def boundary(r):
             return r.total - (len(r.field_bytes("x")) if kind == "resp" else 0)
+        if group.kind.endswith("stream-suffix"):
+            base = ParseResult(res[group.tag(0)])
+            if base.verdict != "complete":
+                return fails
+            b0 = boundary(base)
+            for i in range(1, len(group.members)):
+                r = ParseResult(res[group.tag(i)])
+                if r.verdict != "complete":
+                    fails.append(Failure(group, "suffix", "with bytes appended the accepted message is answered with %s" % r.verdict, [0, i]))
+                elif boundary(r) != b0:
+                    fails.append(Failure(group, "suffix", "boundary moves from %d to %d when bytes are appended" % (b0, boundary(r)), [0, i]))
+                elif any(r.fields.get(f) != base.fields.get(f) for f in fields):
+                    fails.append(Failure(group, "suffix", "parsed message changes when bytes are appended", [0, i]))
+            return fails
         if group.kind.endswith("suffix"):
             base = ParseResult(res[group.tag(0)])
             m = unhex(group.meta["msg"])
@@ -962,8 +1011,14 @@ def alloc_bound(presented, mx, c0, k):
 class C07:
     pid = "C07"
     profiles = ["dev", "release"]
-    projection = staticmethod(proj_class)
     uses_model = True
+
+    @staticmethod
+    def projection(res):
+        # C07 is about what is allocated, not about verdicts (§4.3): model and implementation are compared on
+        # crash / no crash here and on reservations vs allocator readings in the oracle
+        s = " " + strip_ann(res)
+        return "crash" if (" P:" in s or "ABORT" in s) else "returns"
 
     @staticmethod
     def generate(rng, tier, tree, ov):
@@ -1031,14 +1086,21 @@ class C07:
                     fails.append(Failure(group, "alloc", "%d bytes live above the level before the call with %d bytes presented (declared %s)" % (peak, presented, group.meta.get("declared")), [i]))
                     break
             if model is not None:
-                # the reservation log of the model is what C07_*_reserve_bounded speaks about: it must be visible
+                # the reservation log of the model is what C07_*_reserve_bounded speaks about
                 mr = ParseResult(model[group.tag(i)])
+                biggest = 0
                 for ent in (mr.ann.get("r") or [""])[0].split(";"):
                     if not ent:
                         continue
                     site, ln, add = ent.split(":")
+                    biggest = max(biggest, int(add))
                     if int(add) > sum(len(unhex(d)) for d in group.members[i].op.split(" ")[-1].split("|")):
                         fails.append(Failure(group, "reserve-log", "model reservation %s larger than everything presented" % ent, [i]))
+                # ... and a large reservation of the model must be visible as an allocator request of the implementation
+                if biggest >= 4096 and mr.verdict == r.verdict:
+                    seen = max([int(c.split(":")[0]) for c in (r.ann.get("a") or [""])[0].split(";") if c] or [0])
+                    if seen < biggest:
+                        fails.append(Failure(group, "reserve-visible", "the model reserves %d bytes but the largest allocator request of the implementation is %d" % (biggest, seen), [i]))
         return fails
 
     @staticmethod
